@@ -5,7 +5,7 @@ import itertools
 
 import numpy as np
 
-from .. import builders
+from .. import builders, sequences
 from ..runner import LibraryRaised, Recorder, lib
 
 PROPERTY = 'C01'
@@ -16,6 +16,7 @@ RULE = (
     "[-2, dim+2) x numpy/bool/float index types is executed.  Non-trivial: cases on non-square grids "
     "or conventions with several grid kinds (out-of-range probes are part of every case)."
     " Also: datasets that declare their dimensions in the opposite order to the convention's, conventions constructed by hand with explicit coordinate names, meshes whose edge dimension is named but carried by no variable, and index components given as numpy int8/uint8/int16/... on grids with more cells than those types can count."
+    " Datasets also arrive with a history: warmed convention, copy, deep copy, pickle, netCDF round trip, fully chunked (dask), and hand-built conventions for coordinates autodetection would not pick (decoy pair), after warm / pickle. Also (operation sequences, mc/sequences.py): for 8 base datasets and every sequence `first [middle] query` over 36 operations (queries, in-place edits a user makes, transforms whose result is used next; quick length 2, thorough length 3) ending in one of this property's own queries, the answer on the one used object equals the answer on a never-used rebuild. Second phase: the first case of every distinct outcome and kind (thorough: every case, for expensive checks every kind) again with debug logging enabled, under numpy.errstate(all='ignore'), and in python -O child interpreters."
 )
 LEVEL_TEXT = ('every grid kind x every linear index with margin x every native index with margin, on every grid shape up to 6x6 (11x2) of every convention and every mesh of the library, compared with row-major arithmetic; out-of-range must raise')
 LEVEL_NOTE = ('numpy, the builders in mc/builders.py; shapes above the bound are not explored')
@@ -35,7 +36,7 @@ def bounds(tier):
     }
 
 
-def cases(tier):
+def _cases_first_call(tier):
     if tier == 'quick':
         shapes = builders.shapes(3, 3) + [(2, 4), (4, 2)]
         meshes = ['M1', 'M4', 'M6', 'M7']
@@ -71,6 +72,7 @@ def cases(tier):
         # the topology names an edge dimension that no variable carries (edges are only implied)
         out.append({'family': 'ugrid', 'mesh': mesh, 'supplied': ['face_edge'], 'edge_dim': 'declared'})
         out.append({'family': 'ugrid', 'mesh': mesh, 'edge_dim': 'declared'})
+    out.extend(builders.history_specs(tier))
     return out
 
 
@@ -138,7 +140,7 @@ def narrow_probes(rec, fp, case, convention, truth, grid_size):
     return rec.result()
 
 
-def run_case(case):
+def _run_case_first_call(case):
     rec = Recorder()
     ds, truth = builders.build(case)
     convention = builders.get_convention(ds, truth, case)
@@ -252,3 +254,16 @@ def run_case(case):
 
     rec.outcome([family, sorted((k, tuple(v['shape'])) for k, v in kinds.items())])
     return rec.result()
+
+
+def cases(tier):
+    # first calls on freshly built datasets, then operation sequences on one object (mc/sequences.py)
+    return _cases_first_call(tier) + sequences.cases_for(PROPERTY, tier)
+
+
+def run_case(case):
+    if case.get('part') == 'sequence':
+        rec = Recorder()
+        sequences.run_case(PROPERTY, case, rec)
+        return rec.result()
+    return _run_case_first_call(case)
